@@ -31,6 +31,7 @@ func initEncAndDecModes() {
 
 	decMode, err = cbor.DecOptions{
 		MaxArrayElements: 10485760, // Set to a reasonably high value, 10MiB
+		MaxMapPairs:      10485760, // maps (state diffs) may be as large as arrays
 	}.DecModeWithTags(ts)
 	if err != nil {
 		panic(err)
